@@ -26,10 +26,15 @@ def law_specs(S, O, single):
     # dual rules: B <v> be-imported-by A
     for v in ("should", "should_not"):
         d[("dual", v)] = dict(subj=O, verbs=[v], imp=False, exc=False, obj=S)
-    if single:
+    nested = any(rules.related(x, y) for i0, x in enumerate(S[1]) for y in S[1][i0 + 1:])
+    if single or (S[0] in ("named", "sub") and not nested) or S[0] == "named":
+        # the alias law is not about single subjects: a batch of names (prefix siblings included) has it as well.  A list that
+        # names a module together with its own sub modules stands for its top-most modules (C12_alias_anything: the explicit
+        # rule is the one about drop_children Ss)
+        top = (S[0], [x for x in S[1] if not any(y != x and x.startswith(y + ".") for y in S[1])])
         for imp in (True, False):
             d[("any", imp)] = dict(subj=S, verbs=["should_not"], imp=imp, anything=True)
-            d[("anyx", imp)] = dict(subj=S, verbs=["should_not"], imp=imp, exc=True, obj=S)
+            d[("anyx", imp)] = dict(subj=top, verbs=["should_not"], imp=imp, exc=True, obj=top)
     return d
 
 
@@ -46,6 +51,7 @@ def check_laws(out, single, tag, case, viol):
                 a, b = ok(("should", imp, exc)), ok(("should_not", imp, exc))
                 if (a == "PASS") != (b == "FAIL"):
                     bad("negation" + ("_except" if exc else ""), f"imp={imp} should={a} should_not={b}")
+        if ("any", imp) in out:
             a, b = out[("any", imp)], out[("anyx", imp)]
             if a[0] != b[0] or (a[0] == "FAIL" and rules.parse_message(a[1]) != rules.parse_message(b[1])):
                 bad("alias_anything", f"imp={imp} anything={a[0]} except-itself={b[0]}")
